@@ -54,6 +54,15 @@ func (o *Obligation) query(withModel bool) string {
 		pre.WriteString("(set-option :produce-models true)\n")
 	}
 	pre.WriteString(preambleBase)
+	if strings.Contains(body, "(idx ") {
+		// slice element offsets go through `idx` so that quantifier patterns contain no arithmetic;
+		// the defined variant (a macro) is logically identical and better at producing models
+		if o.idxDefined {
+			pre.WriteString("(define-fun idx ((o Int) (k Int)) Int (+ o k))\n")
+		} else {
+			pre.WriteString("(declare-fun idx (Int Int) Int)\n(assert (forall ((o Int) (k Int)) (! (= (idx o k) (+ o k)) :pattern ((idx o k)))))\n")
+		}
+	}
 	for _, blk := range preambleBlocks {
 		if strings.Contains(body, blk.sym) {
 			pre.WriteString(blk.text)
@@ -123,9 +132,17 @@ func solve(o *Obligation, dir string, timeoutS, seed int, wantModel bool, only [
 	if len(file) > 200 {
 		file = filepath.Join(dir, fmt.Sprintf("%s_%x.smt2", sanitize(o.Name)[:100], hashStr(o.Name)))
 	}
+	o.idxDefined = false
 	q := o.query(wantModel)
 	if err := os.WriteFile(file, []byte(q), 0o644); err != nil {
 		return SolveResult{Answer: "error", Raw: err.Error()}
+	}
+	fileDef := ""
+	if strings.Contains(q, "(idx ") {
+		o.idxDefined = true
+		fileDef = strings.TrimSuffix(file, ".smt2") + ".def.smt2"
+		os.WriteFile(fileDef, []byte(o.query(wantModel)), 0o644)
+		o.idxDefined = false
 	}
 	ctx, cancel := context.WithCancel(context.Background())
 	defer cancel()
@@ -133,26 +150,38 @@ func solve(o *Obligation, dir string, timeoutS, seed int, wantModel bool, only [
 		ans, raw, solver string
 		sec              float64
 	}
-	ch := make(chan r, len(solvers))
+	ch := make(chan r, 2*len(solvers))
 	var wg sync.WaitGroup
 	n := 0
+	type job struct {
+		sp    solverSpec
+		file  string
+		label string
+	}
+	var jobs []job
 	for _, sp := range solvers {
 		if len(only) > 0 && !contains(only, sp.name) {
 			continue
 		}
+		jobs = append(jobs, job{sp, file, sp.name})
+		if fileDef != "" && sp.name != "z3" {
+			jobs = append(jobs, job{sp, fileDef, sp.name + "/idxdef"})
+		}
+	}
+	for _, jb := range jobs {
 		n++
 		wg.Add(1)
-		go func(sp solverSpec) {
+		go func(jb job) {
 			defer wg.Done()
 			solverSem <- struct{}{}
 			defer func() { <-solverSem }()
 			if ctx.Err() != nil {
-				ch <- r{"cancelled", "", sp.name, 0}
+				ch <- r{"cancelled", "", jb.label, 0}
 				return
 			}
-			a, raw, sec := runSolver(sp, file, timeoutS, seed, ctx)
-			ch <- r{a, raw, sp.name, sec}
-		}(sp)
+			a, raw, sec := runSolver(jb.sp, jb.file, timeoutS, seed, ctx)
+			ch <- r{a, raw, jb.label, sec}
+		}(jb)
 	}
 	res := SolveResult{Answer: "unknown", ByProc: map[string]string{}}
 	got := 0
@@ -173,6 +202,17 @@ func solve(o *Obligation, dir string, timeoutS, seed int, wantModel bool, only [
 		}
 		if x.sec > res.Seconds {
 			res.Seconds = x.sec
+		}
+	}
+	if res.Answer == "unknown" {
+		allErr := len(res.ByProc) > 0
+		for _, a := range res.ByProc {
+			if a != "error" {
+				allErr = false
+			}
+		}
+		if allErr {
+			res.Answer = "error"
 		}
 	}
 	go func() { wg.Wait() }()
